@@ -323,5 +323,8 @@ func (c *Conn) Idle() bool {
 	return len(c.in) == 0 && c.Waiting > 0
 }
 
+// Wake (free-running mode, lock held): blocked readers look at their connection again.
+func (n *Net) Wake() { n.cond.Broadcast() }
+
 func (n *Net) Lock()   { n.mu.Lock() }
 func (n *Net) Unlock() { n.mu.Unlock() }
